@@ -79,12 +79,10 @@ theorem order_limit_slice (ks : List OrdKey) (n m : Nat) (chunks : List (List Ro
       = ((sortL (keyCmp ks) chunks.flatten).drop m).take n := by
   rw [limit_exec_spec]; simp [limitRows]
 
-/-- The top-N executor (bounded heap) equals ORDER BY followed by LIMIT/OFFSET, whenever its
-eager heap allocation does not overflow. -/
-theorem topn_eq_order_limit (ks : List OrdKey) (n m : Nat) (rows : List Row) (hcap : (m + n) * 24 ≤ isizeMax) :
+/-- The top-N executor (bounded heap) equals ORDER BY followed by LIMIT/OFFSET. -/
+theorem topn_eq_order_limit (ks : List OrdKey) (n m : Nat) (rows : List Row) :
     topnExec (keyCmp ks) (some n) m rows = .ok (limitRows (some n) m (sortL (keyCmp ks) rows)) := by
-  have hc : ¬ ((m + n) * 24 > isizeMax) := by omega
-  simp only [topnExec, Option.getD_some, hc, if_false, limitRows, topnState_eq]
+  simp only [topnExec, Option.getD_some, limitRows, topnState_eq]
   congr 1
   rw [List.drop_take]
   rw [List.take_take]
@@ -94,16 +92,21 @@ theorem topn_eq_order_limit (ks : List OrdKey) (n m : Nat) (rows : List Row) (hc
 example : topnExec (keyCmp [⟨0, false⟩]) (some 2) 1 [[.i32 3], [.i32 1], [.i32 2], [.i32 0]]
     = .ok [[.i32 1], [.i32 2]] := by decide
 
-/-- ORDER BY + OFFSET without LIMIT is planned as top-N with `limit = usize::MAX/2`; the heap
-allocation overflows and the executor task panics, whatever the input (the statement then
-returns no rows).  Genuine defect, recorded as `topn:absent-limit`. -/
-theorem topn_absent_limit_panics {α : Type} (cmp : α → α → Ordering) (m : Nat) (rows : List α) :
-    topnExec cmp none m rows = .panic "topn:capacity-overflow" := by
-  have : (m + usizeHalf) * 24 > isizeMax := by simp [usizeHalf, isizeMax]; omega
-  simp [topnExec, this]
+/-- ORDER BY + OFFSET without LIMIT (planned as top-N with `limit = usize::MAX/2`) returns ALL
+remaining rows of the order. (Before fix ec313d4 the eager heap allocation overflowed and the
+statement returned no rows: former finding `topn:absent-limit`.) -/
+theorem topn_absent_limit (ks : List OrdKey) (m : Nat) (rows : List Row) (h : rows.length ≤ usizeHalf) :
+    topnExec (keyCmp ks) none m rows = .ok (limitRows none m (sortL (keyCmp ks) rows)) := by
+  have hlen : (sortL (keyCmp ks) rows).length = rows.length := (sortL_perm _ rows).length_eq
+  simp only [topnExec, Option.getD_none, limitRows, topnState_eq]
+  congr 1
+  rw [List.take_of_length_le (by omega : (sortL (keyCmp ks) rows).length ≤ m + usizeHalf)]
+  apply List.take_of_length_le
+  simp only [List.length_drop]
+  omega
 
-example : topnExec (keyCmp [⟨0, false⟩]) none 1 [[.i32 3], [.i32 1]] ≠ .ok [[.i32 3]] := by
-  rw [topn_absent_limit_panics]; simp
+example : topnExec (keyCmp [⟨0, false⟩]) none 1 [[.i32 3], [.i32 1], [.i32 2]] = .ok [[.i32 2], [.i32 3]] := by
+  rw [topn_absent_limit _ _ _ (by decide)]; decide
 
 /-! ## Storage layout: memtable, merge scan, concat scan -/
 
@@ -152,15 +155,13 @@ theorem merge_heap_sorted (ks : List OrdKey) (streams : List (List (List Row)))
 example : ∀ s ∈ ([[[[.i32 1], [.i32 2]], [[.i32 9]]], [[[.i32 5], [.i32 5], [.i32 7]]], []] : List (List (List Row))),
     SortedBy (keyCmp [⟨0, false⟩]) s.flatten := by decide
 
-/-- The REAL top-N executor (bounded binary max-heap, `into_sorted_vec`): whenever the heap
-allocation does not overflow, its output is rows m+1..m+n of SOME key-sorted permutation of the
+/-- The REAL top-N executor (bounded binary max-heap, `into_sorted_vec`): its output is rows m+1..m+n of SOME key-sorted permutation of the
 input (which rows of a tie group survive is the heap's business - exactly what ORDER BY + LIMIT
 promises). The abstract `topn_eq_order_limit` is the instance with the stable sort. -/
-theorem topn_heap_eq_order_limit (ks : List OrdKey) (n m : Nat) (rows : List Row) (hcap : (m + n) * 24 ≤ isizeMax) :
+theorem topn_heap_eq_order_limit (ks : List OrdKey) (n m : Nat) (rows : List Row) :
     ∃ sorted : List Row, sorted.Perm rows ∧ SortedBy (keyCmp ks) sorted ∧
       topnHeapExec (keyCmp ks) (some n) m rows = .ok (limitRows (some n) m sorted) := by
   have L := keyCmp_laws ks
-  have hc : ¬ ((m + n) * 24 > isizeMax) := by omega
   obtain ⟨D, inv⟩ := topnHeapState_inv L (m + n) rows
   obtain ⟨hdp, hds⟩ := heapDrain_spec L _ (topnHeapState (keyCmp ks) (m + n) rows) inv.heap (Nat.le_refl _)
   refine ⟨(heapDrain (rcmp (keyCmp ks)) (topnHeapState (keyCmp ks) (m + n) rows).length (topnHeapState (keyCmp ks) (m + n) rows)).reverse ++ sortL (keyCmp ks) D, ?_, ?_, ?_⟩
@@ -173,7 +174,7 @@ theorem topn_heap_eq_order_limit (ks : List OrdKey) (n m : Nat) (rows : List Row
   · have hlenS : (heapDrain (rcmp (keyCmp ks)) (topnHeapState (keyCmp ks) (m + n) rows).length
         (topnHeapState (keyCmp ks) (m + n) rows)).reverse.length = (topnHeapState (keyCmp ks) (m + n) rows).length := by
       rw [List.length_reverse, hdp.length_eq]
-    simp only [topnHeapExec, Option.getD_some, hc, if_false, limitRows]
+    simp only [topnHeapExec, Option.getD_some, limitRows]
     rw [show (fun a b => keyCmp ks b a) = rcmp (keyCmp ks) from rfl]
     congr 1
     generalize (heapDrain (rcmp (keyCmp ks)) (topnHeapState (keyCmp ks) (m + n) rows).length
@@ -186,7 +187,7 @@ theorem topn_heap_eq_order_limit (ks : List OrdKey) (n m : Nat) (rows : List Row
       have e2 : n - (List.drop m S).length = 0 := by rw [List.length_drop]; omega
       rw [e1, e2]; simp
 
-example : (1 + 2) * 24 ≤ isizeMax := by decide
+example : ∃ rows : List Row, rows = [[.i32 3], [.i32 1], [.i32 1]] := ⟨_, rfl⟩
 
 /-- The executor's actual scan (`ScanOptions::default()`: row-sets concatenated in snapshot
 order) is key-sorted iff every row-set is sorted AND the row-sets do not overlap and come in
@@ -352,15 +353,12 @@ theorem order_analysis_sound (t : TableMeta) (lay : List RowSet) (hc : ScanContr
     cases hp : execPlan lay p with
     | panic s => simp [hp, Out.bind] at h
     | ok r =>
-      simp only [hp, Out.bind, topnExec] at h
-      split at h
-      · simp at h
-      · simp only [Out.ok.injEq] at h
-        subst h
-        rw [topnState_eq]
-        have hs := sortL_sorted _ (keyCmp_laws ks) r
-        exact List.Pairwise.sublist
-          ((List.take_sublist _ _).trans ((List.drop_sublist _ _).trans (List.take_sublist _ _))) hs
+      simp only [hp, Out.bind, topnExec, Out.ok.injEq] at h
+      subst h
+      rw [topnState_eq]
+      have hs := sortL_sorted _ (keyCmp_laws ks) r
+      exact List.Pairwise.sublist
+        ((List.take_sublist _ _).trans ((List.drop_sublist _ _).trans (List.take_sublist _ _))) hs
 
 theorem sortedBy_prefix (ks1 ks2 : List OrdKey) (rows : List Row) (h : SortedBy (keyCmp (ks1 ++ ks2)) rows) :
     SortedBy (keyCmp ks1) rows := by
